@@ -89,7 +89,6 @@ func C12_SharedProg() {
 		panic("rejected")
 	}
 	patchConst(p, 1001, verif.Int("k"))
-	b0, _, e0 := bcl.Execute(p)
 	var b1, b2 []bcl.Block
 	var e1, e2 error
 	done := make(chan struct{})
@@ -103,7 +102,37 @@ func C12_SharedProg() {
 	}()
 	<-done
 	<-done
+	b0, _, e0 := bcl.Execute(p)
 	verif.Assert(e0 == nil && e1 == nil && e2 == nil, "no error")
 	verif.Assert(blocksEqual(b0, b1) && blocksEqual(b0, b2), "concurrent executions equal the sequential one")
+	verif.Reach("returned")
+}
+
+// C12_SharedFailing: one Prog whose execution ends in a runtime error
+// (formatting the error reads the line table) executed from two goroutines.
+func C12_SharedFailing() {
+	src := "var x = 1001\nprint x\nprint x / 0\n"
+	w := &lockedWriter{}
+	log := &lockedWriter{}
+	p, err := bcl.Parse([]byte(src), "x", bcl.OptOutput(w), bcl.OptLogger(log))
+	if err != nil {
+		panic("rejected")
+	}
+	patchConst(p, 1001, verif.Int("k"))
+	var e1, e2 error
+	done := make(chan struct{})
+	// the concurrent executions come first: nothing is warmed up for them
+	go func() {
+		_, _, e1 = bcl.Execute(p)
+		done <- struct{}{}
+	}()
+	go func() {
+		_, _, e2 = bcl.Execute(p)
+		done <- struct{}{}
+	}()
+	<-done
+	<-done
+	_, _, e0 := bcl.Execute(p)
+	verif.Assert(e0 != nil && errText(e0) == errText(e1) && errText(e0) == errText(e2), "same runtime error from concurrent executions")
 	verif.Reach("returned")
 }
